@@ -32,6 +32,7 @@ TraceInit ==
     /\ now = 0 /\ up = FALSE /\ verify = FALSE /\ aggmode = "never"
     /\ attjobs = {} /\ prepjobs = {} /\ running = {} /\ pend = {} /\ attested = {} /\ subs = {}
     /\ roots = {} /\ records = {} /\ bids = {} /\ njobs = 0
+    /\ msgrun = {} /\ aucrun = {} /\ subrun = {}
     /\ env = Env0
     /\ InitHWM
 
@@ -41,14 +42,26 @@ TraceReset ==
     /\ now' = Line.now /\ up' = FALSE /\ verify' = Line.verify /\ aggmode' = Line.agg
     /\ attjobs' = {} /\ prepjobs' = {} /\ running' = {} /\ pend' = {} /\ attested' = {} /\ subs' = {}
     /\ roots' = {} /\ records' = {} /\ bids' = {} /\ njobs' = 0
+    /\ msgrun' = {} /\ aucrun' = {} /\ subrun' = {}
     /\ env' = Env0
 
-\* the attestation jobs the driver holds in flight are the running jobs of the specification
-RunOK == Has(Line, "running") => S(Line.running) = running'
+\* the attestation jobs the driver holds in flight are the running jobs of the specification; likewise the
+\* head root requests, auctions and subscriptions it holds (calls under way on the one set of instances)
+RunOK ==
+    /\ Has(Line, "running") => S(Line.running) = running'
+    /\ Has(Line, "msgrun") => S(Line.msgrun) = msgrun'
+    /\ Has(Line, "aucrun") => S(Line.aucrun) = aucrun'
+    /\ Has(Line, "subrun") => S(Line.subrun) = subrun'
 
 TraceStart == IsEvent("Start") /\ Start(Fetched, Post) /\ RunOK
 TraceTick == IsEvent("Tick") /\ Tick(Post) /\ RunOK
-TracePrepare == IsEvent("Prepare") /\ Prepare(Line.e, Line.fired, Fetched, Post) /\ RunOK
+\* subheld: the epochs whose beacon committee subscription the node keeps back (SubEnd delivers it)
+TracePrepare == IsEvent("Prepare") /\ Prepare(Line.e, Line.fired, Fetched, Fld("subheld", {}), Post) /\ RunOK
+TraceSubEnd ==
+    /\ IsEvent("SubEnd")
+    /\ IF Line.fired THEN SubEnd(Line.e, Post)
+       ELSE Probe(Post)                         \* the node kept nothing back: nothing may appear
+    /\ RunOK
 \* also with attestation jobs running, and (split) with the node's reply to the duty request kept back: the
 \* request is logged with this line, the jobs it leads to with the Resched line
 TraceHead == IsEvent("Head") /\ HeadEvent(Fetched, Post) /\ RunOK
@@ -65,9 +78,16 @@ TraceAttEnd ==
        ELSE IF Line.fired THEN AttWhole(Line.s, Post)
        ELSE SyncAgg(Line.s, Post)               \* no such job: nothing may appear
     /\ RunOK
+\* the sync committee message job of slot s is at the node with its head root request (it stays there while the
+\* following lines are recorded - the jobs of later slots among them) / the node has answered, Message(s) and
+\* the job have returned
+TraceMsgStart == IsEvent("MsgStart") /\ MsgStart(Line.s, Post) /\ RunOK
+TraceMsgEnd == IsEvent("MsgEnd") /\ MsgEnd(Line.s, Post) /\ RunOK
 TraceSyncMsg == IsEvent("SyncMsg") /\ SyncMsg(Line.s, Line.fired, Post) /\ RunOK
 TraceSyncAgg == IsEvent("SyncAgg") /\ SyncAgg(Line.s, Post) /\ RunOK
-TraceAuction == IsEvent("Auction") /\ Auction(Line.s, Post)
+TraceAuction == IsEvent("Auction") /\ Auction(Line.s, Post) /\ RunOK
+TraceAucStart == IsEvent("AucStart") /\ AucStart(Line.s, Post) /\ RunOK
+TraceAucEnd == IsEvent("AucEnd") /\ AucEnd(Line.s, Post) /\ RunOK
 TraceAdvance == IsEvent("Advance") /\ Advance(Post) /\ now' = Line.now /\ RunOK
 
 \* The run on the real scheduler is sampled once per epoch, between samples the services run by
@@ -77,7 +97,9 @@ TraceSample ==
     /\ IsEvent("Sample")
     /\ now' = Line.now
     /\ Apply([Post EXCEPT !.pend = S(Line.stalepend), !.attjobs = S(Line.stalejobs)])
-    /\ UNCHANGED <<up, verify, aggmode, running>>
+    \* (the attestation jobs whose request the node is keeping back are running; their marks are in stalepend)
+    /\ running' = IF Has(Line, "running") THEN S(Line.running) ELSE running
+    /\ UNCHANGED <<up, verify, aggmode, calls>>
 
 \* Real scheduler, an attestation held in flight at the node while a head event refreshed its epoch: the
 \* line gives the jobs that are running (the request is with the node / the job has returned), and, for
@@ -87,11 +109,11 @@ TraceInFlight ==
     /\ now' = Line.now
     /\ running' = S(Line.running)
     /\ Apply([Cur EXCEPT !.pend = S(Line.pendprobe), !.attjobs = S(Line.jobsprobe)])
-    /\ UNCHANGED <<up, verify, aggmode>>
+    /\ UNCHANGED <<up, verify, aggmode, calls>>
 
 TraceNext == TraceReset \/ TraceStart \/ TraceTick \/ TracePrepare \/ TraceHead \/ TraceResched \/ TraceProbe
              \/ TraceAttStart \/ TraceAttEnd \/ TraceSyncMsg \/ TraceSyncAgg \/ TraceAuction \/ TraceAdvance
-             \/ TraceSample \/ TraceInFlight
+             \/ TraceSample \/ TraceInFlight \/ TraceSubEnd \/ TraceMsgStart \/ TraceMsgEnd \/ TraceAucStart \/ TraceAucEnd
 
 TraceSpec == TraceInit /\ [][TraceNext]_tvars
 
